@@ -376,6 +376,8 @@ func (p *Proxy) handleCONNECT(r responder.Responder, proxyReq *http.Request) err
 				slog.Debug("Client closed connection in CONNECT tunnel", "host", proxyReq.Host)
 			} else {
 				slog.Error("Error reading request from client in CONNECT tunnel", "host", proxyReq.Host, "error", err)
+				// Tell the client what happened before the tunnel goes away, as the server does on a plain connection
+				responder.NewRawHTTPResponder(tlsConn).WriteError("400 Bad Request", http.StatusBadRequest)
 			}
 			break
 		}
